@@ -12,7 +12,8 @@
 (* All numbers are exact rationals <<num, den>>.                           *)
 (*                                                                         *)
 (* MACHINE, shaped like the way the implementation is driven and lowered:  *)
-(*   Init/NewMesh   mesh.rectilinear / mesh.simplex / product of two lines *)
+(*   Init/NewMesh   mesh.rectilinear / mesh.simplex / products of two or   *)
+(*                  three topologies in different spaces                   *)
 (*   Refine         topo.refined (child maps of transform.SimplexChild /   *)
 (*                  TensorChild)                                           *)
 (*   SetGeom        geom = G(x0)                                           *)
@@ -28,25 +29,25 @@
 (*                  e the exterior vector of the edge (Updim.ext,          *)
 (*                  TransformBasis); _Jacobian = sqrt det Gram(R T)        *)
 (*   EvalInterfaces topo.interfaces.sample: both sides of interior facets  *)
-(*   EvalBoundaryField  fields that LIVE ON the boundary topology (a        *)
-(*                  manifold of codimension one: functions of               *)
-(*                  topo.boundary.f_coords / topo.boundary.basis):          *)
-(*                  _TransformsCoords.lower of the boundary chain gives     *)
-(*                  d facet coords / d root = (L^T L)^-1 L^T, the Gram      *)
-(*                  pseudo inverse of the linear part L of the chain        *)
-(*                  (child maps and the edge map, TransformLinear), then    *)
-(*                  _Gradient contracts with (d geom / d root)^-1; the      *)
-(*                  surface gradient of the boundary sample goes through    *)
-(*                  the tip target instead                                  *)
+(*   EvalBoundaryField  fields that LIVE ON the boundary topology (a       *)
+(*                  manifold of codimension one: functions of              *)
+(*                  topo.boundary.f_coords / topo.boundary.basis):         *)
+(*                  _TransformsCoords.lower of the boundary chain gives    *)
+(*                  d facet coords / d root = (L^T L)^-1 L^T, the Gram     *)
+(*                  pseudo inverse of the linear part L of the chain       *)
+(*                  (child maps and the edge map, TransformLinear), then   *)
+(*                  _Gradient contracts with (d geom / d root)^-1; the     *)
+(*                  surface gradient of the boundary sample goes through   *)
+(*                  the tip target instead                                 *)
 (*   Integrate      topo.integrate / topo.boundary.integrate with the      *)
 (*                  Jacobian measure (exact rational quadrature: closed    *)
 (*                  Newton-Cotes, simplices through the Duffy map)         *)
 (*   RefineIntegrals  the same integrals on the refined mesh               *)
-(* Product topologies (spaces X, Y, [Z]; mesh.sp lists their dimensions):   *)
+(* Product topologies (spaces X, Y, [Z]; mesh.sp lists their dimensions):  *)
 (* the root derivative is the concatenation of one block per space,        *)
-(* d . / d root_s (function._Gradient / _Jacobian / _Normal loop over       *)
+(* d . / d root_s (function._Gradient / _Jacobian / _Normal loop over      *)
 (* args.exposed), for a geometry that spans all spaces; per-space          *)
-(* operators (grad(f, geom[cols_s], spaces=[s])) use one diagonal block.    *)
+(* operators (grad(f, geom[cols_s], spaces=[s])) use one diagonal block.   *)
 (* `res` holds what the implementation route computes; the invariants      *)
 (* compare it with the DEFINING identities of the property:                *)
 (*   GradIsDerivative   grad p(X) = p'(X)  (d f/d ref R^-1 = p'(G(x0)))    *)
@@ -64,15 +65,15 @@
 (*   DivTheoremMesh     the same over the boundary of the mesh; interface  *)
 (*                      fluxes cancel                                      *)
 (*   RefinePreserves    (action property) refinement changes no integral   *)
-(*   BoundaryFieldTangential  the gradient of a field on the boundary       *)
-(*                      topology agrees with p'(X) along every tangent of   *)
-(*                      the facet (its normal component is not defined)     *)
-(*   BoundarySurfGrad   the surface gradient on a boundary sample is the    *)
-(*                      tangential projection (I - n n^T) of p'(X)          *)
-(*   ProductGradient    on product topologies the concatenated per-space    *)
-(*                      blocks give p'(X) (and B is block diagonal)         *)
-(*   PerSpace           per-space gradients of a separable geometry are the *)
-(*                      partial derivatives with respect to that space      *)
+(*   BoundaryFieldTangential  the gradient of a field on the boundary      *)
+(*                      topology agrees with p'(X) along every tangent of  *)
+(*                      the facet (its normal component is not defined)    *)
+(*   BoundarySurfGrad   the surface gradient on a boundary sample is the   *)
+(*                      tangential projection (I - n n^T) of p'(X)         *)
+(*   ProductGradient    on product topologies the concatenated per-space   *)
+(*                      blocks give p'(X) (and B is block diagonal)        *)
+(*   PerSpace           per-space gradients of a separable geometry are the*)
+(*                      partial derivatives with respect to that space     *)
 (* Results only depend on x0, G, p: independence of parametrisation is the *)
 (* fact that the implementation route (through ref coordinates, B = E)     *)
 (* equals the definitional route (which does not see the element).         *)
